@@ -78,7 +78,7 @@ def find_item(src, spec):
         start = ms[nth].end()
         j = start
         t, m = src.text, src.mask
-        while j < c0:
+        while j <= c0:
             if m[j]:
                 if t[j] in '([{':
                     j = src.match_close(j)
